@@ -60,7 +60,7 @@ func c10R1(c *Ctx) {
 		var call *ssa.Call
 		eachInstr(fn, func(r instrRef) {
 			if cl, ok := r.I.(*ssa.Call); ok {
-				if f := cl.Common().StaticCallee(); f != nil && f.Name() == g {
+				if f := cl.Common().StaticCallee(); f != nil && funcSimpleName(f) == g {
 					call = cl
 				}
 			}
@@ -191,7 +191,7 @@ func c10R2(c *Ctx) {
 			if cc.IsInvoke() && cc.Method.Name() == method && len(cc.Args) == 2 {
 				out = append(out, cc.Args[1])
 			}
-			if f := cc.StaticCallee(); f != nil && f.Name() == method {
+			if f := cc.StaticCallee(); f != nil && funcSimpleName(f) == method {
 				out = append(out, cc.Args[len(cc.Args)-1])
 			}
 		})
@@ -316,7 +316,7 @@ func c10R3(c *Ctx) {
 			cnt[c.fnName(fn)+m]++
 			key := fmt.Sprintf("build:%s:%s#%d", c.fnName(fn), m, cnt[c.fnName(fn)+m])
 			_, inRun := run[fn]
-			okc := c10GraphBuilders[c.fnName(fn)] && !inRun
+			okc := c.tabledB(c10GraphBuilders, fn) && !inRun
 			c.verdict(okc, rule, key, c.instrPos(r.I), "graph built by a tabled prepare function", fmt.Sprintf("%s modifies the dependency graph outside the tabled prepare functions (in run path: %v): the graph would contain more than the workflow text implies", c.fnName(fn), inRun))
 		})
 	}
